@@ -93,6 +93,24 @@ func init() {
 		},
 	})
 	register(&Property{
+		ID: "C15",
+		Explanation: "Decides the skip discipline that makes whitespace, comments and keyword case irrelevant: (R1) every token-kind test of the hand-written parser (comparison of tokens[i].TokenType with a kind other than WS/COMMENT, or a kind handed to a predicate helper) looks at an index that is the result of consumeIgnoreableTokens, is the function's own parameter (then every call site must pass a skipped index), or - for indexes returned by callees - whose callee summary says `skipped` (typestate over SSA with function summaries, greatest fixpoint); (R2) the expression-token filter drops exactly the kinds the skipper skips; (R3) keywords are matched on strings.ToLower of the whole lexeme and are spelled in lower case. " +
+			"A raw decision means: inserting a blank or a comment at that gap changes the branch taken. Does NOT decide the lexer's comment state machine nor equality of the resulting syntax trees.",
+		Assumptions: commonAssumptions,
+		Rules: []RuleFn{
+			{Name: "C15.R1", Run: func(c *Ctx) {
+				exc := "frozen exception: the index returned by parse_process_statements is the `end`/`else`/EOF token on which the statement list stopped; parse_process_statement returned its own (skipped) index parameter unchanged on that path. Proving it needs a path-sensitive summary."
+				ruleSkipDiscipline(c, "C15.R1", map[string]string{
+					"parse_set_transform: raw index returned by ast.parse_process_statements": exc,
+					"parse_set_pattern: raw index returned by ast.parse_process_statements":   exc,
+					"parse_process_if: raw index returned by ast.parse_process_statements":    exc,
+				})
+			}},
+			{Name: "C15.R2", Run: func(c *Ctx) { ruleIgnorableSiblings(c, "C15.R2") }},
+			{Name: "C15.R3", Run: func(c *Ctx) { ruleKeywordCase(c, "C15.R3") }},
+		},
+	})
+	register(&Property{
 		ID: "C16",
 		Explanation: "Decides the structural part of string-literal decoding: (R1) the lexer's push-back never exceeds what bufio.Reader can undo (capacity 1 while unread() relies on UnreadRune); (R2) the escape table of getEscapedRune, folded over every ASCII rune, is the documented one (n t r a b f v, identity otherwise); (R3) the double-quote and single-quote branches of the lexer are identical up to their state constants and quote character; (R4) IsHex accepts exactly the hex digits and HexToAscii parses base 16; (R5) read() hands out exactly the rune of one ReadRune call. " +
 			"Does NOT decide the state machine as a whole (that every byte string round-trips), only these necessary conditions.",
